@@ -71,6 +71,8 @@ func genCase(t *rapid.T) Case {
 		Text: rapid.IntRange(0, 3).Draw(t, "text") > 0, MaxDim: 3, Quantizer: rapid.Bool().Draw(t, "quant")}
 	ho := gen.HistoryOpts{MaxSteps: 6, MaxBatch: 12, PoolSize: rapid.SampledFrom([]int{10, 30}).Draw(t, "pool"), Reopen: true, Evict: true,
 		FieldProb: rapid.SampledFrom([]int{60, 90}).Draw(t, "fieldProb")}
+	// the same id more than once in one update batch (merged in order; the indices must see the net change)
+	ho.AllowDupUpdate = rapid.IntRange(0, 3).Draw(t, "dupUpdate") == 0
 	nspec := 6
 	if vt.Thorough() {
 		ho.MaxSteps, ho.MaxBatch, nspec = 10, 25, 10
